@@ -11,6 +11,7 @@ import (
 	"context"
 	"encoding/json"
 	"errors"
+	"flag"
 	"fmt"
 	"sort"
 	"strings"
@@ -50,6 +51,7 @@ type Case struct {
 	Salt    int          `json:"salt,omitempty"`
 	Moved   []int        `json:"moved,omitempty"`
 	Asked   []int        `json:"asked,omitempty"` // keys whose slot is migrating: the owner answers -ASK
+	Fail    string       `json:"fail,omitempty"` // mgetfail: abortcmd | abortpttl | experr
 	HKeys   []string     `json:"hkeys,omitempty"`
 	HResps  []HelperResp `json:"hresps,omitempty"`
 }
@@ -59,7 +61,23 @@ const wrongType = "WRONGTYPE Operation against a key holding the wrong kind of v
 var namePool = []string{"a", "b", "c", "d", "e", "f", "g", "h", "k1", "k2", "k3", "k4", "k5", "k6", "k7", "k8", "k9", "k10",
 	"{t}1", "{t}2", "{t}3", "{u}1", "{u}2", "user:1", "user:2", "user:3", "x", "y", "z", "foo", "bar", "baz", "qux", "", "a b", "é", "k\r\n"}
 
+var kindsFlag = flag.String("kinds", "", "comma separated case kinds to generate (default: all): multi,mget,jmget,cluster,helper,mgetfail")
+
 func genCase(r *gen.Rand, i int) any {
+	for tries := 0; ; tries++ {
+		c := genCase1(r, i).(Case)
+		if *kindsFlag == "" || tries > 400 {
+			return c
+		}
+		for _, k := range strings.Split(*kindsFlag, ",") {
+			if k == c.Kind {
+				return c
+			}
+		}
+	}
+}
+
+func genCase1(r *gen.Rand, i int) any {
 	c := Case{}
 	switch r.Intn(20) {
 	case 0, 1, 2, 3, 4, 5, 6:
@@ -72,6 +90,9 @@ func genCase(r *gen.Rand, i int) any {
 		c.Kind = "cluster"
 	default:
 		c.Kind = "helper"
+	}
+	if r.Chance(1, 8) {
+		c.Kind = "mgetfail"
 	}
 	if c.Kind == "helper" {
 		n := r.Size(12, 3)
@@ -106,6 +127,10 @@ func genCase(r *gen.Rand, i int) any {
 		nk = len(perm)
 	}
 	valueKind := "str"
+	if c.Kind == "mgetfail" && r.Chance(1, 3) {
+		valueKind = "json"
+		c.Path = gen.Pick(r, []string{"$", "$.a"})
+	}
 	if c.Kind == "jmget" {
 		valueKind = "json"
 		c.Path = gen.Pick(r, []string{"$", "$.a", ".b[0]"})
@@ -146,6 +171,14 @@ func genCase(r *gen.Rand, i int) any {
 		}
 	}
 	switch c.Kind {
+	case "mgetfail":
+		c.Mux = -1
+		c.Fail = gen.Pick(r, []string{"abortcmd", "abortpttl", "experr"})
+		for j := range c.Keys { // plain values only: the failure is injected, not produced by the data
+			if c.Keys[j].Kind == "hash" {
+				c.Keys[j].Kind = valueKind
+			}
+		}
 	case "multi":
 		c.Mux = gen.Pick(r, []int{-1, -1, 1, 2, 3})
 		c.Adapter = r.Chance(1, 4)
@@ -235,7 +268,7 @@ func srvTable(entries []fakeredis.Entry) (srvt, qt string) {
 			continue
 		}
 		key := strings.Join(e.Argv, "\x00")
-		isQ := e.Reply.T == '-' && (strings.HasPrefix(e.Reply.S, "MOVED ") || strings.HasPrefix(e.Reply.S, "ASK ")) && !e.InTx
+		isQ := e.Reply.T == '-' && (strings.HasPrefix(e.Reply.S, "MOVED ") || strings.HasPrefix(e.Reply.S, "ASK ") || e.Reply.S == "ERR injected") && !e.InTx
 		if isQ {
 			key = "q" + key
 		} else if !e.InTx && isQueued(e.Reply) {
@@ -307,6 +340,9 @@ func run(ci any) (res obs.Result) {
 	}()
 	if c.Kind == "helper" {
 		return runHelper(c)
+	}
+	if c.Kind == "mgetfail" {
+		return runMGetFail(c)
 	}
 	if len(c.Static) < len(c.Batch) {
 		c.Static = append(c.Static, make([]bool, len(c.Batch)-len(c.Static))...)
@@ -717,6 +753,210 @@ func run(ci any) (res obs.Result) {
 	res.Nontrivial = len(feat) >= 2 && len(c.Batch) >= 2
 	raw, _ := json.Marshal(c)
 	res.Sig = string(raw)
+	return
+}
+
+
+// ---- DoCache(MGET / JSON.MGET) whose rewritten request fails: result and cancelled flights (recording store) ----
+
+func runMGetFail(c Case) (res obs.Result) {
+	res.Kind = "mgetfail:" + c.Fail
+	res.Site, res.Class = "pipe.go:doCacheMGet", "mget-failure-cancel"
+	raw, _ := json.Marshal(c)
+	res.Sig = string(raw)
+	s := fakeredis.New()
+	csc.RegisterJSON(s)
+	for _, k := range c.Keys {
+		put(s, k)
+	}
+	js := c.Path != ""
+	cc, head := "GET", "MGET"
+	if js {
+		cc, head = "JSON.GET"+c.Path, "JSON.MGET"
+	}
+	var names []string
+	for _, j := range c.Batch {
+		names = append(names, c.Keys[j].Name)
+	}
+	var pendKeys []string
+	for _, j := range c.Pend {
+		if !contains(c.Warm, j) {
+			pendKeys = append(pendKeys, c.Keys[j].Name)
+		}
+	}
+	warm := map[string]bool{}
+	for _, j := range c.Warm {
+		warm[c.Keys[j].Name] = true
+	}
+	pend := map[string]bool{}
+	for _, k := range pendKeys {
+		pend[k] = true
+	}
+	var misses []string // first occurrences, in order
+	seen := map[string]bool{}
+	for _, n := range names {
+		if !warm[n] && !pend[n] && !seen[n] {
+			seen[n] = true
+			misses = append(misses, n)
+		}
+	}
+	hold := csc.NewHold(pendKeys)
+	injected := false
+	s.Fault = func(cn *fakeredis.Conn, cseq int, argv []string) fakeredis.Action {
+		hold.Fault(cn, cseq, argv)
+		reject := false
+		switch c.Fail {
+		case "abortcmd":
+			reject = argv[0] == head && cn.CscInMulti()
+		case "abortpttl":
+			reject = len(misses) > 0 && argv[0] == "PTTL" && len(argv) == 2 && argv[1] == misses[0] && cn.CscInMulti() && len(cn.CscQueued()) == 0
+		}
+		if reject && !injected {
+			injected = true
+			cn.CscPoison()
+			v := fakeredis.Error("ERR injected")
+			return fakeredis.Action{Override: &v}
+		}
+		return fakeredis.Action{}
+	}
+	if c.Fail == "experr" {
+		mg := s.CscHandler(head)
+		s.Handle(head, func(cn *fakeredis.Conn, a []string) fakeredis.V {
+			if !injected {
+				injected = true
+				return fakeredis.Error("ERR failure at execution time")
+			}
+			return mg(cn, a)
+		})
+	}
+	rec := csc.NewRecorder(nil)
+	A, err := csc.SingleClient(s, -1, false, c.BCast, func(o *rueidis.ClientOption) { o.NewCacheStoreFn = rec.Store })
+	if err != nil {
+		res.Oracle = "harness: " + err.Error()
+		return
+	}
+	defer A.Close()
+	defer hold.Release()
+	ctx, cancel := context.WithTimeout(context.Background(), 40*time.Second)
+	defer cancel()
+	one := func(k string) rueidis.Cacheable {
+		if js {
+			return A.B().JsonGet().Key(k).Path(c.Path).Cache()
+		}
+		return A.B().Get().Key(k).Cache()
+	}
+	lk := map[string]string{}
+	for _, j := range c.Warm {
+		k := c.Keys[j].Name
+		r := csc.FromResult(A.DoCache(ctx, one(k), ttl))
+		if r.Err != "" {
+			res.Oracle, res.Class = "harness: warm-up: "+r.Err, "harness"
+			return
+		}
+		lk[k] = "(LHit " + r.V.Coq() + ")"
+	}
+	pendCh := make(chan []csc.R, 1)
+	if len(pendKeys) > 0 {
+		var cts []rueidis.CacheableTTL
+		for _, k := range pendKeys {
+			cts = append(cts, rueidis.CT(one(k), ttl))
+		}
+		go func() {
+			var out []csc.R
+			for _, r := range A.DoMultiCache(ctx, cts...) {
+				out = append(out, csc.FromResult(r))
+			}
+			pendCh <- out
+		}()
+		if !hold.WaitSignals(1, 20*time.Second) {
+			res.Oracle, res.Class = "harness: pending flight did not reach the server", "harness"
+			return
+		}
+	}
+	var cmd rueidis.Cacheable
+	argv := append([]string{head}, names...)
+	if js {
+		cmd = A.B().JsonMget().Key(names...).Path(c.Path).Cache()
+		argv = append(argv, c.Path)
+	} else {
+		cmd = A.B().Mget().Key(names...).Cache()
+	}
+	mark := rec.Len()
+	outCh := make(chan csc.R, 1)
+	go func() { outCh <- csc.FromResult(A.DoCache(ctx, cmd, ttl)) }()
+	nf := func(evs []csc.StoreEvent) (n int) {
+		for _, e := range evs {
+			if e.Op == "flight" {
+				n++
+			}
+		}
+		return
+	}
+	if !rec.WaitFor(mark, 20*time.Second, func(evs []csc.StoreEvent) bool { return nf(evs) >= len(names) }) {
+		res.Oracle, res.Class = "harness: the MGET did not look its keys up", "harness"
+		return
+	}
+	hold.Release()
+	var out csc.R
+	select {
+	case out = <-outCh:
+	case <-time.After(30 * time.Second):
+		res.Oracle, res.Class = "the MGET call did not return", "hang"
+		return
+	}
+	if len(pendKeys) > 0 {
+		select {
+		case po := <-pendCh:
+			for i, k := range pendKeys {
+				lk[k] = "(LWait " + po[i].Coq() + ")"
+			}
+		case <-time.After(30 * time.Second):
+			res.Oracle, res.Class = "pending call did not return", "hang"
+			return
+		}
+	}
+	var cancelled []string
+	for _, e := range rec.Since(mark) {
+		if e.Op == "cancel" {
+			cancelled = append(cancelled, e.Key)
+		}
+	}
+	res.Obs = map[string]any{"result": out.View(), "cancelled": cancelled, "misses": misses}
+	// oracle
+	switch {
+	case len(misses) == 0:
+		if len(cancelled) != 0 || strings.HasPrefix(out.View(), "E:") {
+			res.Oracle = fmt.Sprintf("nothing was sent, yet result %s / cancelled %v", out.View(), cancelled)
+		}
+	case !strings.HasPrefix(out.View(), "E:"):
+		res.Oracle = "the rewritten request failed but the call returned " + out.View()
+	case strings.Join(cancelled, "\x00") != strings.Join(misses, "\x00"):
+		res.Oracle = fmt.Sprintf("the failed call started flights for %q but cancelled %q", misses, cancelled)
+	default:
+		for _, k := range misses {
+			c2, cancel2 := context.WithTimeout(ctx, 3*time.Second)
+			r := csc.FromResult(A.DoCache(c2, one(k), ttl))
+			cancel2()
+			if r.Err != "" {
+				res.Oracle = fmt.Sprintf("a later read of %q ended with %s (its failed flight was neither woken nor removed)", k, r.Err)
+				res.Class = "dead-flight"
+				break
+			}
+		}
+	}
+	// Gallina
+	var lks []string
+	var ns []string
+	for n := range lk {
+		ns = append(ns, n)
+	}
+	sort.Strings(ns)
+	for _, n := range ns {
+		lks = append(lks, csc.Pair(csc.CK(n, cc), lk[n]))
+	}
+	srvt, qt := srvTable(s.LogCopy())
+	res.Coq = obs.App("CMGetFail", obs.Bool(!c.BCast), csc.Argv(argv), obs.List(lks), srvt, qt, obs.Ok(out.Coq()), obs.ListOf(cancelled, obs.HS))
+	res.Nontrivial = len(misses) > 0 && (len(c.Warm) > 0 || len(pendKeys) > 0)
 	return
 }
 
